@@ -12,7 +12,7 @@ class C04(Check):
     required_theorems = ["one_location", "key_tracks_next_check", "single_flight",
                          "single_flight_counterexample_with_passive_result", "concurrency_bound", "next_check_window",
                          "forced_runs", "skip_iff", "progress", "sched_keeps_scheduled", "model_trace_meets_spec",
-                         "model_trace_counterexample_with_passive_result"]
+                         "model_trace_counterexample_with_passive_result", "counter_exceeds_max_with_plugins"]
     technique = ("Lean 4 proof (invariants by induction over arbitrary interleavings of a transition system whose actions are the "
                  "lock-protected sections of CheckerComponent, the single-flight flag of Checkable::ExecuteCheck and the attribute writes "
                  "that happen outside the checker's mutex; exact rational arithmetic for UpdateNextCheck); correspondence by trace "
@@ -25,7 +25,7 @@ class C04(Check):
                   "one of them (pause, resume, SetNextCheck, force, activation, deactivation at any moment drop nothing and duplicate nothing); "
                   "the idle key equals next_check once the change handler has run; at most one execution per checkable between the "
                   "m_CheckRunning test-and-set and its result (under the property's event alphabet; the counterexample with a passive result is "
-                  "a theorem too); executions in progress <= pending-checks counter <= max_concurrent_checks; a forced check is dispatched "
+                  "a theorem too); running command bodies + spawned, unfinished plugin processes <= max_concurrent_checks and <= the pending-checks counter, which equals the units held by helpers plus PluginCheckTask's own +1/-1 balance (the counter itself may exceed the limit: theorem counter_exceeds_max_with_plugins); the whole observed trace of the model satisfies the executable specification (model_trace_meets_spec); a forced check is dispatched "
                   "whatever reachability / enable_active_checks / check period say; no stuck state (a due idle checkable and a free slot enable "
                   "the scheduler for the smallest key); UpdateNextCheck yields now < next <= now + interval for all now, offset >= 0, interval > 0. "
                   "The model is tied to the code by validating the real scheduler's section-by-section trace against it (every section enabled, "
@@ -51,14 +51,19 @@ class C04(Check):
         "writes of that flag (the attribute has no handler inside the checker)",
     ]
     assumptions = [
-        "real-time liveness is measured, not proved: lateness histogram of dispatches; every idle entry that was due when the operations "
-        "stopped must have been taken 1.2 s (2.5 s thorough) later; and (F-C04a, fixed by 31ee201) after a helper finished for a checkable that "
-        "had left the pending set, an entry that was due all the time must be dispatched within 0.4 s, i.e. not only by the scheduler's 0.5 s "
-        "poll (clause liveness_no_wakeup_when_slot_freed). All three are ignored for a scenario whose process was itself starved of CPU for "
-        "> 0.2 s (canary thread); offered load is kept below ~40 % of max_concurrent_checks",
+        "real-time liveness is measured, not proved (partial): (a) lateness histogram of dispatches (reported only); (b) every idle entry that was "
+        "due when the operations stopped must have been taken 2.5 s later — a verdict only if no scenario process of the run saw one of its "
+        "four canary threads oversleep by > 0.2 s (threads of this machine were observed to stall for 0.4-0.9 s under load); (c) a scripted probe "
+        "(script=wakeup; F-C04a, fixed by 31ee201): with max_concurrent_checks=1, A is paused while its command runs and B is made due; when A's "
+        "helper finishes, the freed slot must wake the scheduler for B at once: the MEDIAN over 12 repetitions of the delay must be < 0.3 s "
+        "(before the fix: 0.42 s, after: ~0.1 ms), which is robust against single stalls; offered load of the random scenarios is kept below "
+        "~40 % of max_concurrent_checks",
         "at most one harness operation per checkable is in flight at a time (operations on different checkables, helpers and the scheduler run concurrently)",
-        "check commands deliver their result from inside the command function (or throw); results from other threads and commands that return without "
-        "a result are not generated",
+        "check commands either deliver their result from inside the command function (or throw), or behave like PluginCheckTask: hand the work to a "
+        "'process' (own thread), take their own +1 on the pending-checks counter after the spawn and give it back when the process finished, "
+        "before the result is processed; the harness does these two counter operations while holding the checker's mutex so that the trace order "
+        "is the order in which the scheduler saw the counter; commands that never deliver a result and passive results during an execution "
+        "(Q-C04, an explicit action of the model outside the property's alphabet) are not generated",
         "UpdateNextCheck is compared on times/intervals that are multiples of 1/64 s (so that fmod's arguments are exact in binary64) with a tolerance of 1 us",
         "thread schedules are not reproducible: --replay re-runs the scenario with the same seed and parameters several times",
     ]
@@ -139,10 +144,10 @@ class C04(Check):
             case = self._context(save, int(kv["line"]), kv.get("cid", "0"))
             # arithmetic lines replay deterministically; scenarios are re-run with the same seed (threads: best effort)
             arith = case[0].split()[2:3] == ["arith"]
-            if spec and what == "liveness_no_wakeup_when_slot_freed":
+            if spec and what == "liveness_wakeup_when_slot_freed":
                 # context = the scheduler's and the helpers' sections just before the late dispatch (all checkables)
                 case = case[:1] + self._sections_before(save, int(kv["line"]))
-            tries = 0 if (spec and what.startswith("liveness")) else (1 if arith else 2)
+            tries = 0 if (spec and what == "liveness_overdue") else (1 if arith else 2)
             reproduced = self._reproduce(harness, driver, case, "SPECFAIL" if spec else "MISMATCH", tries)
             detail = {"driver": l, "origin": origin, "reproduced_on_rerun": reproduced,
                       "note": "lines `<n>: …` are the recorded observations of the failing run (context); replay re-runs the `C` line"}
@@ -187,11 +192,11 @@ class C04(Check):
         res.exhaustive = False
         res.rule = ("corpus/C04/*.ops, then from one PRNG seeded by VERIF_SEED: 40 000 (300 000 thorough) UpdateNextCheck comparisons under the "
                     "virtual clock (now small / medium / around 1.7e9 s, intervals <= 1 s, = 1 s, just above, whole seconds, minutes, arbitrary; "
-                    "offsets 0 .. 2^31; hard and soft-with-result state) and 15 (24) real-time scenarios of 5 s (75 s), 5 (6) at a time, one process "
+                    "offsets 0 .. 2^31; hard and soft-with-result state) and 15 (24) real-time scenarios of 5 s (75 s) plus 1 (3) scripted wake-up probes, 5 (6) at a time, one process "
                     "each: 5-300 hosts plus up to n/4 created at run time, max_concurrent_checks in {1, 2, 4, 16}, check intervals 30 ms - 3 s "
                     "(some above 1 s so that the offset adjustment is live), retry intervals, max_check_attempts 1-3, 10 % with active checks "
                     "disabled, 10 % with a closed check period, commands that sleep (mean chosen for ~40 % load), return OK / alternate / fail / "
-                    "throw; 1-4 mutator threads fire pause, resume, bounce (pause+resume+SetNextCheck(now)), SetNextCheck (now, past, near "
+                    "throw, one third of them asynchronous like PluginCheckTask (own thread per 'process', own +1/-1, sometimes finishing before the +1); 1-4 mutator threads fire pause, resume, bounce (pause+resume+SetNextCheck(now)), SetNextCheck (now, past, near "
                     "future, one interval), force (+SetNextCheck(now)), deactivate, activate+resume of pool objects, OnPausedChanged without a change, one in four aimed at a "
                     "checkable whose command is executing; seeded delays/yields at the schedule points inside the critical sections. "
                     "evaluations = model actions replayed from the implementation's trace + arithmetic comparisons; a scenario counts as "
